@@ -61,7 +61,7 @@ def encodeImage (h : Hdr) (rds : List RawDesc) (data : Bytes) : Bytes :=
 theorem C11_encodeImage_loadable (h : Hdr) (rds : List RawDesc) (data : Bytes)
     (hv : h.Valid) (hm : h.magic = hdrMagic) (hver : h.version = curVersion)
     (ht : h.dtotal = rds.length) (hd : 128 ≤ h.doff) (hs : (585 * rds.length : Int) ≤ h.dsize)
-    (ho : h.doff + 585 * rds.length ≤ h.dataOff)
+    (ho : h.doff + 585 * rds.length ≤ h.dataOff) (hds : h.doff + h.dsize ≤ h.dataOff)
     (dv : ∀ d ∈ rds, d.Valid) (dl : ∀ d ∈ rds, loadable d = true) :
     Loadable h rds (encodeImage h rds data) := by
   have hdn : 128 ≤ h.doff.toNat := by omega
@@ -71,7 +71,8 @@ theorem C11_encodeImage_loadable (h : Hdr) (rds : List RawDesc) (data : Bytes)
   have hp2 : pad (h.dataOff.toNat - h.doff.toNat) (encTable rds)
       = encTable rds ++ zeros (h.dataOff.toNat - h.doff.toNat - 585 * rds.length) := by
     simp [pad, List.take_of_length_le, hgap]
-  refine ⟨hv, hm, hver, ht, by omega, hs, ?_, ?_, ?_, ?_, dv, dl⟩
+  refine ⟨hv, hm, hver, ht, by omega, hs, ?_, ?_, ?_, ?_, dv, dl, by
+    have := hv.dataOff; unfold I64 at this; unfold maxI64; omega⟩
   · simp [encodeImage]; omega
   · simp only [encodeImage, hp1, List.append_assoc]
     exact slice_take _ _ 128 (by simp)
